@@ -1,5 +1,7 @@
-(* The invariant `UInv` of machine M2 (UpperMachine.v) and its preservation by every step (no UChange).
-   UInv s :=  M1's invariant `Inv` for the M1 state formed by the embedded threads (`m1_of`),
+(* The invariant `UInv` of machine M2 (UpperMachine.v) and its preservation by every step of every call
+   (get / get_at / put / drain / change_tree with Offline or a class change; see `call_valid2`).
+   UInv o s := (o = the ghost "hidden by offline" amounts, changed only by a successful Offline: `off_next`, `grun`)
+              M1's invariant `Inv` for the M1 state formed by the embedded threads (`m1_of`),
               the upper accounting `UG` = UIC2 with credit / in-hand := sums of the per-thread ghosts (`uthr_gh`),
               every thread well-formed (`thr_wf`: `twf` of UpperConcWf.v; the only panic is "Exceeding retries").
    A step = one access (per-primitive lemmas `P_*`: the sequential per-primitive lemmas of UpperConcUIC.v applied to
@@ -37,21 +39,21 @@ Section Main.
   Notation TF := (TF g).
   Notation UIC := (UIC2 g policy).
 
-  Definition zoff (u : upper) : list N := repeat 0 (length (trees u)).
-  Definition ux (u : upper) : ustate := {| us := u; off := zoff u |}.
-  Definition UG (u : upper) (gs : list ugh) : Prop := UIC (CRf gs) (IHf gs) (ux u).
+  (* `o` = the ghost "hidden by offline" amounts (UpperInvDef.off); only a successful Offline change_tree changes it *)
+  Definition ux (o : list N) (u : upper) : ustate := {| us := u; off := o |}.
+  Definition UG (o : list N) (u : upper) (gs : list ugh) : Prop := UIC (CRf gs) (IHf gs) (ux o u).
   Definition thr_wf (u : upper) (x : uthr) : Prop :=
     match x with
     | UIdle _ => True
     | URun c p k => call_wf g u c /\ twf g policy u c p k
     | UPanic z c => z = SExceedingRetries /\ exists f r, c = UPut f r
     end.
-  Definition UInv (s : m2state) : Prop :=
-    Inv g (m1_of g s) /\ UG (m2_up s) (map (uthr_gh g) (m2_pool s)) /\ Forall (thr_wf (m2_up s)) (m2_pool s).
+  Definition UInv (o : list N) (s : m2state) : Prop :=
+    Inv g (m1_of g s) /\ UG o (m2_up s) (map (uthr_gh g) (m2_pool s)) /\ Forall (thr_wf (m2_up s)) (m2_pool s).
 
   (* ----- one thread's ghost focused out of the sums ----- *)
-  Definition UGt (u : upper) (G : ugh) (cr0 : N -> N) (ih0 : list (N * N * N)) : Prop :=
-    UIC (fun i => crsum (g_cr G) i + cr0 i) (g_ih G ++ ih0) (ux u).
+  Definition UGt (o : list N) (u : upper) (G : ugh) (cr0 : N -> N) (ih0 : list (N * N * N)) : Prop :=
+    UIC (fun i => crsum (g_cr G) i + cr0 i) (g_ih G ++ ih0) (ux o u).
   Definition crR (gs : list ugh) (t : nat) : N -> N := CRf (upd gs t gh_nil).
   Definition ihR (gs : list ugh) (t : nat) : list (N * N * N) := IHf (upd gs t gh_nil).
 
@@ -69,55 +71,68 @@ Section Main.
     - eapply perm_trans; [apply Permutation_app_head; exact (IH t H)|apply Permutation_app_swap_app].
   Qed.
 
-  Lemma UG_to_t u gs t G : nth_error gs t = Some G -> UG u gs -> UGt u G (crR gs t) (ihR gs t).
+  Lemma UG_to_t o u gs t G : nth_error gs t = Some G -> UG o u gs -> UGt o u G (crR gs t) (ihR gs t).
   Proof.
     intros H U. unfold UG in U. rewrite <- (upd_same gs t G H) in U. unfold UGt.
     eapply (U2_ext g policy WF); [|eapply (U2_perm g policy WF); [apply (IHf_focus gs t G G H)|exact U]].
     intros i. apply (CRf_focus gs t G G i H).
   Qed.
-  Lemma UG_of_t u gs t G G' : nth_error gs t = Some G -> UGt u G' (crR gs t) (ihR gs t) -> UG u (upd gs t G').
+  Lemma UG_of_t o u gs t G G' : nth_error gs t = Some G -> UGt o u G' (crR gs t) (ihR gs t) -> UG o u (upd gs t G').
   Proof.
     intros H U. unfold UG. unfold UGt in U.
     eapply (U2_ext g policy WF); [|eapply (U2_perm g policy WF); [apply Permutation_sym; apply (IHf_focus gs t G G' H)|exact U]].
     intros i. symmetry. apply (CRf_focus gs t G G' i H).
   Qed.
-  Lemma UGt_eq u G G' cr0 ih0 : gh_eq G G' -> UGt u G cr0 ih0 -> UGt u G' cr0 ih0.
+  Lemma UGt_eq o u G G' cr0 ih0 : gh_eq G G' -> UGt o u G cr0 ih0 -> UGt o u G' cr0 ih0.
   Proof.
     intros (A & B & _) U. unfold UGt in *.
     eapply (U2_ext g policy WF); [|eapply (U2_perm g policy WF); [apply Permutation_app_tail; exact B|exact U]].
     intros i. cbv beta. rewrite (A i). reflexivity.
   Qed.
 
-  Lemma UGt_split u A F cr0 ih0 :
-    UGt u (gh_add A F) cr0 ih0 <-> UGt u A (fun i => crsum (g_cr F) i + cr0 i) (g_ih F ++ ih0).
+  Lemma UGt_eq' o u G G' cr0 ih0 :
+    (forall i, crsum (g_cr G) i = crsum (g_cr G') i) -> Permutation (g_ih G) (g_ih G') -> UGt o u G cr0 ih0 -> UGt o u G' cr0 ih0.
+  Proof.
+    intros A B U. unfold UGt in *.
+    eapply (U2_ext g policy WF); [|eapply (U2_perm g policy WF); [apply Permutation_app_tail; exact B|exact U]].
+    intros i. cbv beta. rewrite (A i). reflexivity.
+  Qed.
+
+  Lemma UGt_split o u A F cr0 ih0 :
+    UGt o u (gh_add A F) cr0 ih0 <-> UGt o u A (fun i => crsum (g_cr F) i + cr0 i) (g_ih F ++ ih0).
   Proof.
     unfold UGt, gh_add. cbn [g_cr g_ih]. rewrite <- app_assoc. split; intros U.
     - eapply (U2_ext g policy WF); [|exact U]. intros i. cbv beta. rewrite crsum_app. lia.
     - eapply (U2_ext g policy WF); [|exact U]. intros i. cbv beta. rewrite crsum_app. lia.
   Qed.
 
-  Lemma ux_set_tree u i t : mk2 (ux u) (set_tree u i t) = ux (set_tree u i t).
-  Proof. unfold mk2, ux, zoff. cbn [us off set_tree with_trees trees]. rewrite upd_length. reflexivity. Qed.
-  Lemma ux_set_slot u c j s : mk2 (ux u) (set_slot u c j s) = ux (set_slot u c j s).
-  Proof. unfold mk2, ux, zoff. cbn [us off]. rewrite set_slot_trees. reflexivity. Qed.
-  Lemma ux_with_low u l : mk2 (ux u) (with_low u l) = ux (with_low u l).
+  Lemma UGt_ntrees o u G cr0 ih0 : UGt o u G cr0 ih0 -> ntrees u = ntab g (frames (low u)).
+  Proof. intros U. exact (U2_ntrees g policy WF _ _ _ U). Qed.
+
+  Section Offs.
+  Variable o : list N.
+
+
+  Lemma ux_set_tree u i t : mk2 (ux o u) (set_tree u i t) = ux o (set_tree u i t).
+  Proof. reflexivity. Qed.
+  Lemma ux_set_slot u c j s : mk2 (ux o u) (set_slot u c j s) = ux o (set_slot u c j s).
+  Proof. reflexivity. Qed.
+  Lemma ux_with_low u l : mk2 (ux o u) (with_low u l) = ux o (with_low u l).
   Proof. reflexivity. Qed.
 
   Lemma crsum_one t n i : crsum [(t, n)] i = delta i t n.
   Proof. unfold crsum, delta. cbn [sumf fold_right fst snd]. rewrite (N.eqb_sym i t). destruct (t =? i); lia. Qed.
 
-  Lemma UGt_ntrees u G cr0 ih0 : UGt u G cr0 ih0 -> ntrees u = ntab g (frames (low u)).
-  Proof. intros U. exact (U2_ntrees g policy WF _ _ _ U). Qed.
 
   (* ================= tree entries ================= *)
   Lemma P_tput u i n cr0 ih0 :
-    UGt u (gh_cr i n) cr0 ih0 -> i < ntrees u ->
+    UGt o u (gh_cr i n) cr0 ih0 -> i < ntrees u ->
     exists t t', tree_at u i = Some t /\ tree_put g policy (dflt u) t n = Ok t' /\
-                 UGt (set_tree u i t') gh_nil cr0 ih0.
+                 UGt o (set_tree u i t') gh_nil cr0 ih0.
   Proof.
     intros U L. unfold UGt in U. cbn [gh_cr g_cr g_ih app] in U.
     destruct (trees_put g policy u i n) as [r u'] eqn:E.
-    destruct (trees_put_C2 g policy WF _ (fun j => crsum [] j + cr0 j) _ (ux u) i n r u' U L) as (Er & U' & t & t' & Et & Ep & _ & _ & Eu).
+    destruct (trees_put_C2 g policy WF _ (fun j => crsum [] j + cr0 j) _ (ux o u) i n r u' U L) as (Er & U' & t & t' & Et & Ep & _ & _ & Eu).
     - cbv beta. rewrite crsum_one. unfold delta. rewrite N.eqb_refl. lia.
     - intros j. cbv beta. rewrite crsum_one, crsum_nil. lia.
     - exact E.
@@ -125,44 +140,44 @@ Section Main.
   Qed.
 
   Lemma P_sync u i mn t new cr0 ih0 :
-    UGt u gh_nil cr0 ih0 -> tree_at u i = Some t -> tree_sync_steal t mn = Some new ->
-    UGt (set_tree u i new) (gh_cr i (t_free t)) cr0 ih0.
+    UGt o u gh_nil cr0 ih0 -> tree_at u i = Some t -> tree_sync_steal t mn = Some new ->
+    UGt o (set_tree u i new) (gh_cr i (t_free t)) cr0 ih0.
   Proof.
     intros U Et Es. unfold UGt in U. cbn [gh_nil g_cr g_ih app] in U.
     pose proof (tree_at_lt _ _ _ Et) as L.
-    assert (E : trees_sync (us (ux u)) i mn = (Ok (Some (t_free t)), set_tree u i new)).
+    assert (E : trees_sync (us (ux o u)) i mn = (Ok (Some (t_free t)), set_tree u i new)).
     { unfold trees_sync. cbn [us ux]. rewrite Et, Es. reflexivity. }
-    destruct (trees_sync_C2 g policy WF _ _ (ux u) i mn _ _ U L E) as [(Q & _)|(t0 & Et0 & R & M & _ & Eu & H)]; [discriminate|].
+    destruct (trees_sync_C2 g policy WF _ _ (ux o u) i mn _ _ U L E) as [(Q & _)|(t0 & Et0 & R & M & _ & Eu & H)]; [discriminate|].
     unfold UGt. cbn [gh_cr g_cr g_ih app]. rewrite <- ux_set_tree. apply H.
     cbn [us ux] in Et0. rewrite Et in Et0. inversion Et0; subst t0.
     intros j. cbv beta. rewrite crsum_one, crsum_nil. lia.
   Qed.
 
   Lemma P_steal u i cl n t new cr0 ih0 :
-    UGt u gh_nil cr0 ih0 -> tree_at u i = Some t -> tree_steal policy t cl n = Some new ->
+    UGt o u gh_nil cr0 ih0 -> tree_at u i = Some t -> tree_steal policy t cl n = Some new ->
     class_slots u cl <> None ->
-    UGt (set_tree u i new) (gh_cr i n) cr0 ih0.
+    UGt o (set_tree u i new) (gh_cr i n) cr0 ih0.
   Proof.
     intros U Et Es Hc. unfold UGt in U. cbn [gh_nil g_cr g_ih app] in U.
     pose proof (tree_at_lt _ _ _ Et) as L.
-    assert (E : trees_steal policy (us (ux u)) i cl n = (Ok (Some (t_class new)), set_tree u i new)).
+    assert (E : trees_steal policy (us (ux o u)) i cl n = (Ok (Some (t_class new)), set_tree u i new)).
     { unfold trees_steal. cbn [us ux]. rewrite Et, Es. reflexivity. }
-    destruct (trees_steal_C2 g policy WF _ _ (ux u) i cl n _ _ U L Hc E) as [(Q & _)|(t0 & t' & _ & _ & _ & _ & _ & _ & _ & _ & _ & H)]; [discriminate|].
+    destruct (trees_steal_C2 g policy WF _ _ (ux o u) i cl n _ _ U L Hc E) as [(Q & _)|(t0 & t' & _ & _ & _ & _ & _ & _ & _ & _ & _ & H)]; [discriminate|].
     unfold UGt. cbn [gh_cr g_cr g_ih app]. rewrite <- ux_set_tree. apply H.
     intros j. cbv beta. rewrite crsum_one, crsum_nil. lia.
   Qed.
 
   Lemma P_ros u i cl n t new cr0 ih0 :
-    UGt u gh_nil cr0 ih0 -> tree_at u i = Some t -> tree_reserve_or_steal policy t n cl = Some new ->
+    UGt o u gh_nil cr0 ih0 -> tree_at u i = Some t -> tree_reserve_or_steal policy t n cl = Some new ->
     class_slots u cl <> None ->
-    UGt (set_tree u i new)
+    UGt o (set_tree u i new)
         (if t_res new then gh_add (gh_ih i (t_class new) (t_free t - n)) (gh_cr i n) else gh_cr i n) cr0 ih0.
   Proof.
     intros U Et Es Hc. unfold UGt in U. cbn [gh_nil g_cr g_ih app] in U.
     pose proof (tree_at_lt _ _ _ Et) as L.
-    assert (E : trees_reserve_or_steal policy (us (ux u)) i cl n = (Ok (Some (t_res new, t_free t, t_class new)), set_tree u i new)).
+    assert (E : trees_reserve_or_steal policy (us (ux o u)) i cl n = (Ok (Some (t_res new, t_free t, t_class new)), set_tree u i new)).
     { unfold trees_reserve_or_steal. cbn [us ux]. rewrite Et, Es. reflexivity. }
-    destruct (trees_reserve_or_steal_C2 g policy WF _ _ (ux u) i cl n _ _ PR U L Hc E)
+    destruct (trees_reserve_or_steal_C2 g policy WF _ _ (ux o u) i cl n _ _ PR U L Hc E)
       as [(Q & _)|(t0 & Et0 & Rf & Ln & [(Pk & Er & Eu & H)|(Pk & Er & Eu & H)])]; [discriminate| |];
       cbn [us ux] in Et0; rewrite Et in Et0; inversion Et0; subst t0; inversion Er as [[E1 E2]].
     - rewrite E1, E2. unfold UGt. cbn [gh_add gh_ih gh_cr g_cr g_ih app]. rewrite <- ux_set_tree.
@@ -173,13 +188,13 @@ Section Main.
   Qed.
 
   Lemma P_unres u i cl a cr0 ih0 :
-    UGt u (gh_ih i cl a) cr0 ih0 ->
+    UGt o u (gh_ih i cl a) cr0 ih0 ->
     exists t t', tree_at u i = Some t /\ tree_unreserve_add g policy (dflt u) t a cl = Some (Ok t') /\
-                 UGt (set_tree u i t') gh_nil cr0 ih0.
+                 UGt o (set_tree u i t') gh_nil cr0 ih0.
   Proof.
     intros U. unfold UGt in U. cbn [gh_ih g_cr g_ih app] in U.
     destruct (trees_unreserve g policy u i a cl) as [r u'] eqn:E.
-    destruct (trees_unreserve_C2 g policy WF _ _ (ux u) i a cl r u' U E) as (Er & U' & t & t' & Et & _ & _ & _ & Eu).
+    destruct (trees_unreserve_C2 g policy WF _ _ (ux o u) i a cl r u' U E) as (Er & U' & t & t' & Et & _ & _ & _ & Eu).
     cbn [us ux] in Et. unfold trees_unreserve in E. rewrite Et in E.
     destruct (tree_unreserve_add g policy (dflt u) t a cl) as [[t''|e|z]|] eqn:Ea; inversion E as [[E1 E2]]; try (subst r; discriminate).
     exists t, t''. split; [exact Et|]. split; [exact Ea|].
@@ -196,13 +211,13 @@ Section Main.
   Qed.
 
   Lemma P_slot_in u G cr0 ih0 c j s :
-    UGt u G cr0 ih0 -> pslot_at u c j = Some s -> s_pres s = true ->
+    UGt o u G cr0 ih0 -> pslot_at u c j = Some s -> s_pres s = true ->
     rt g s < ntrees u /\ s_row s * 64 < frames (low u) /\ s_free s <= TF.
-  Proof. intros U H P. exact (U2_slot g policy WF _ _ (ux u) c j s U H P). Qed.
+  Proof. intros U H P. exact (U2_slot g policy WF _ _ (ux o u) c j s U H P). Qed.
 
   Lemma P_sget u c j s tree n s' cr0 ih0 :
-    UGt u gh_nil cr0 ih0 -> pslot_at u c j = Some s -> slot_get g s tree n = Some s' ->
-    UGt (set_slot u c j s') (gh_cr (rt g s) n) cr0 ih0.
+    UGt o u gh_nil cr0 ih0 -> pslot_at u c j = Some s -> slot_get g s tree n = Some s' ->
+    UGt o (set_slot u c j s') (gh_cr (rt g s) n) cr0 ih0.
   Proof.
     intros U Hs Hg. destruct (slot_get_facts g _ _ _ _ Hg) as (Pr & _ & Ln & ->).
     destruct (P_slot_in _ _ _ _ _ _ _ U Hs Pr) as (L1 & L2 & L3).
@@ -212,10 +227,10 @@ Section Main.
   Qed.
 
   Lemma P_sput u c j s t n cr0 ih0 :
-    UGt u (gh_cr t n) cr0 ih0 -> pslot_at u c j = Some s ->
+    UGt o u (gh_cr t n) cr0 ih0 -> pslot_at u c j = Some s ->
     match slot_put g s t n with
     | None => True
-    | Some (Ok s') => UGt (set_slot u c j s') gh_nil cr0 ih0
+    | Some (Ok s') => UGt o (set_slot u c j s') gh_nil cr0 ih0
     | Some _ => False
     end.
   Proof.
@@ -223,7 +238,7 @@ Section Main.
     destruct (locals_put g u c j t n) as [r u'] eqn:E.
     assert (Hn : n <= (fun i => crsum [(t, n)] i + cr0 i) t).
     { cbv beta. rewrite crsum_one. unfold delta. rewrite N.eqb_refl. lia. }
-    pose proof (locals_put_C2 g policy WF _ _ (ux u) c j t n r u' U (slot_idx_ok _ _ _ _ Hs) Hn E) as Q.
+    pose proof (locals_put_C2 g policy WF _ _ (ux o u) c j t n r u' U (slot_idx_ok _ _ _ _ Hs) Hn E) as Q.
     unfold locals_put in E. cbn [us ux] in Q. unfold UpperPrims.slot_at in Hs.
     destruct (class_slots u c) as [l|]; [|discriminate]. rewrite Hs in E.
     destruct (slot_put g s t n) as [[s'|e|z]|]; [| | |exact I]; inversion E as [[E1 E2]]; subst r u'.
@@ -235,12 +250,12 @@ Section Main.
   Qed.
 
   Lemma P_sstart u G c j s row s' cr0 ih0 :
-    UGt u G cr0 ih0 -> pslot_at u c j = Some s -> slot_set_start g s row = Some s' -> row * 64 < frames (low u) ->
-    UGt (set_slot u c j s') G cr0 ih0.
+    UGt o u G cr0 ih0 -> pslot_at u c j = Some s -> slot_set_start g s row = Some s' -> row * 64 < frames (low u) ->
+    UGt o (set_slot u c j s') G cr0 ih0.
   Proof.
     intros U Hs Hg Hr.
     destruct (locals_set_start g u c j row) as [r u'] eqn:E.
-    destruct (locals_set_start_C2 g policy WF _ _ (ux u) c j row r u' U (slot_idx_ok _ _ _ _ Hs) Hr E) as (_ & U' & _).
+    destruct (locals_set_start_C2 g policy WF _ _ (ux o u) c j row r u' U (slot_idx_ok _ _ _ _ Hs) Hr E) as (_ & U' & _).
     unfold locals_set_start in E. unfold UpperPrims.slot_at in Hs.
     destruct (class_slots u c) as [l|]; [|discriminate]. rewrite Hs, Hg in E. inversion E; subst r u'.
     unfold UGt. rewrite <- ux_set_slot. exact U'.
@@ -267,9 +282,9 @@ Section Main.
   Qed.
 
   Lemma P_swap u c j old new cr0 ih0 :
-    UGt u (slot_gh g c new) cr0 ih0 -> pslot_at u c j = Some old ->
+    UGt o u (slot_gh g c new) cr0 ih0 -> pslot_at u c j = Some old ->
     (s_pres new = true -> s_row new * 64 < frames (low u)) ->
-    UGt (set_slot u c j new) (slot_gh g c old) cr0 ih0.
+    UGt o (set_slot u c j new) (slot_gh g c old) cr0 ih0.
   Proof.
     intros U Hs Hr. unfold UGt in *. rewrite slot_gh_cr, slot_gh_ih in *. rewrite <- ux_set_slot.
     apply (U2_slot_xchg g policy WF); [exact Hs| |exact U].
@@ -297,13 +312,13 @@ Section Main.
   Qed.
 
   Lemma P_sgetnone u tc j s tree n s' cl cr0 ih0 :
-    UGt u gh_nil cr0 ih0 -> pslot_at u tc j = Some s -> slot_get g s tree n = Some s' ->
+    UGt o u gh_nil cr0 ih0 -> pslot_at u tc j = Some s -> slot_get g s tree n = Some s' ->
     policy cl tc n = PDemote -> class_slots u cl <> None ->
-    UGt (set_slot u tc j slot_none) (gh_add (gh_ih (rt g s) cl (s_free s - n)) (gh_cr (rt g s) n)) cr0 ih0.
+    UGt o (set_slot u tc j slot_none) (gh_add (gh_ih (rt g s) cl (s_free s - n)) (gh_cr (rt g s) n)) cr0 ih0.
   Proof.
     intros U Hs Hg Pd Hc. destruct (slot_get_facts g _ _ _ _ Hg) as (Pr & _ & Ln & _).
     unfold UGt in *. cbn [gh_nil gh_add gh_ih gh_cr g_cr g_ih app] in *. rewrite <- ux_set_slot.
-    assert (U1 : UIC (fun i => crsum [] i + cr0 i) (resv_of g tc s ++ ih0) (mk2 (ux u) (set_slot u tc j slot_none))).
+    assert (U1 : UIC (fun i => crsum [] i + cr0 i) (resv_of g tc s ++ ih0) (mk2 (ux o u) (set_slot u tc j slot_none))).
     { apply (U2_slot_xchg g policy WF); [exact Hs|discriminate|exact U]. }
     unfold resv_of in U1. rewrite Pr in U1. cbn [app] in U1.
     eapply (U2_ih_credit g policy WF); [eapply U2_relabel; [exact U1|exact Pd|]|].
@@ -315,7 +330,7 @@ Section Main.
   Definition tfun_ok (u : upper) (f0 : tfun) : Prop :=
     match f0 with
     | FSteal cl _ | FRos _ cl => class_slots u cl <> None
-    | FChange _ _ _ => False
+    | FChange _ _ ch => c_op ch <> Some OpOnline /\ (forall c, c_class ch = Some c -> class_slots u c <> None)
     | _ => True
     end.
   Definition sfun_ok (u : upper) (tc : N) (f0 : sfun) (f : kframe) : Prop :=
@@ -365,7 +380,8 @@ Section Main.
       try (eapply locals_slots; eassumption);
       try (intros _; assumption);
       try (intros Q; discriminate Q);
-      try (eexists _, _, _, _; split; [reflexivity|split; [assumption|eapply get_class_ok; eassumption]]).
+      try (eexists _, _, _, _; split; [reflexivity|split; [assumption|eapply get_class_ok; eassumption]]);
+      try (cbn [call_wf] in CW; destruct CW as [C1 C2]; first [exact C1|intros c0 E0 Q; apply (C2 c0 E0); unfold class_locals; rewrite Q; reflexivity]).
   Qed.
 
   Lemma top_wf_mono u c p p' f :
@@ -404,7 +420,7 @@ Section Main.
 
   (* evaluating a tree closure on the value just read *)
   Lemma P_tu u i f0 t cr0 ih0 :
-    UGt u (tf_gh i f0) cr0 ih0 -> i < ntrees u -> tfun_ok u f0 -> tree_at u i = Some t ->
+    UGt o u (tf_gh i f0) cr0 ih0 -> i < ntrees u -> tfun_ok u f0 -> tree_at u i = Some t ->
     match tu_eval g policy u i f0 t with
     | OStay p' => exists new, p' = PTC i f0 t new /\ tf_apply g policy (dflt u) f0 t 0 = Some (Ok new)
     | OVal v => v = VT false t t /\ tf_apply g policy (dflt u) f0 t 0 = None /\ (forall a cl, f0 <> FUnres a cl)
@@ -412,21 +428,23 @@ Section Main.
     end.
   Proof.
     intros U L Tf Et. unfold tu_eval.
-    assert (Nf : needs_fetch f0 t = false) by (destruct f0; cbn [tfun_ok] in Tf; try reflexivity; destruct Tf).
-    rewrite Nf. destruct f0 as [mn|cl n|n cl|a cl|? ? ?|n]; cbn [tf_apply tf_gh tfun_ok] in *.
+    assert (Nf : needs_fetch f0 t = false).
+    { destruct f0 as [| | | |mc mf ch|]; cbn [tfun_ok needs_fetch] in *; try reflexivity. destruct Tf as [No _].
+      destruct (c_op ch) as [[|]|]; rewrite ?andb_false_r; try reflexivity. destruct (No eq_refl). }
+    rewrite Nf. destruct f0 as [mn|cl n|n cl|a cl|mc mf ch|n]; cbn [tf_apply tf_gh tfun_ok] in *.
     - destruct (tree_sync_steal t mn); cbn [option_map]; [eexists; split; reflexivity|]. repeat split; discriminate.
     - destruct (tree_steal policy t cl n); cbn [option_map]; [eexists; split; reflexivity|]. repeat split; discriminate.
     - destruct (tree_reserve_or_steal policy t n cl); cbn [option_map]; [eexists; split; reflexivity|]. repeat split; discriminate.
     - destruct (P_unres _ _ _ _ _ _ U) as (t0 & t' & Et0 & Ea & _). rewrite Et in Et0. inversion Et0; subst t0.
       rewrite Ea. eexists; split; reflexivity.
-    - destruct Tf.
+    - destruct (tree_apply_change t mc mf ch 0); cbn [option_map]; [eexists; split; reflexivity|]. repeat split; discriminate.
     - destruct (P_tput _ _ _ _ _ U L) as (t0 & t' & Et0 & Ea & _). rewrite Et in Et0. inversion Et0; subst t0.
       rewrite Ea. eexists; split; reflexivity.
   Qed.
 
   (* evaluating a slot closure *)
   Lemma P_su u cl idx f0 s cr0 ih0 :
-    UGt u (sf_gh f0) cr0 ih0 -> UpperPrims.slot_at u cl idx = Some s ->
+    UGt o u (sf_gh f0) cr0 ih0 -> UpperPrims.slot_at u cl idx = Some s ->
     match su_eval g cl idx f0 s with
     | OStay p' => exists new, p' = PSC cl idx f0 s new /\ sf_apply g f0 s = Some (Ok new)
     | OVal v => v = UpperMachine.VS false s s /\ sf_apply g f0 s = None
@@ -451,16 +469,64 @@ Section Main.
     apply nth_error_None in E. unfold nn in E. lia.
   Qed.
 
+  (* ================= the ghost `off`: changed by a successful Offline only ================= *)
+  Definition off_upd (ch : tree_change) (i : N) (t : tree) : list N :=
+    match c_op ch with Some OpOffline => upd o (nn i) (nth (nn i) o 0 + t_free t) | _ => o end.
+  Definition off_next (u : upper) (p : prim) : list N :=
+    match p with
+    | PTC i (FChange _ _ ch) cur _ =>
+        match tree_at u i with
+        | Some t => if tree_eqb t cur then off_upd ch i cur else o
+        | None => o
+        end
+    | _ => o
+    end.
+  Lemma off_next_fail u i f0 t cur new : tree_at u i = Some t -> tree_eqb t cur = false -> off_next u (PTC i f0 cur new) = o.
+  Proof. intros Et Eq. destruct f0; cbn [off_next]; try reflexivity. rewrite Et, Eq. reflexivity. Qed.
+
+  Lemma nth_upd_same {A} (l : list A) k x d : (k < length l)%nat -> nth k (upd l k x) d = x.
+  Proof. revert k. induction l as [|a l IH]; intros k L; cbn [length] in L; [lia|]. destruct k; cbn [upd nth]; [reflexivity|]. apply IH. lia. Qed.
+  Lemma nth_upd_other {A} (l : list A) k j x d : j <> k -> nth j (upd l k x) d = nth j l d.
+  Proof. revert k j. induction l as [|a l IH]; intros k j N; destruct k, j; cbn [upd nth]; try reflexivity; try lia. apply IH. lia. Qed.
+
+  Lemma P_change u i mc mf ch t new cr0 ih0 :
+    UGt o u gh_nil cr0 ih0 -> tree_at u i = Some t -> tree_apply_change t mc mf ch 0 = Some new ->
+    tfun_ok u (FChange mc mf ch) ->
+    UGt (off_upd ch i t) (set_tree u i new) gh_nil cr0 ih0.
+  Proof.
+    intros U Et Ea (No & Hc). unfold UGt in *. cbn [gh_nil g_cr g_ih app] in *.
+    pose proof (tree_at_lt _ _ _ Et) as L.
+    assert (Lo : (nn i < length o)%nat).
+    { destruct U as (_ & _ & H3 & _). cbn [ux off us] in H3. rewrite H3. unfold ntrees in L. unfold nn. lia. }
+    pose proof (U2_tree g policy WF _ _ _ _ _ U Et) as Ok0. cbn [ux us off] in Ok0.
+    unfold tree_apply_change in Ea.
+    destruct (negb (t_res t) && match mc with Some k => k =? t_class t | None => true end && (mf <=? t_free t)) eqn:Ec; [|discriminate].
+    apply andb_true_iff in Ec. destruct Ec as [Ec _]. apply andb_true_iff in Ec. destruct Ec as [Rf _]. apply negb_true_iff in Rf.
+    assert (Cls : class_slots u (match c_class ch with Some c => c | None => t_class t end) <> None).
+    { destruct (c_class ch) as [c0|] eqn:Ecc; [apply (Hc c0 eq_refl)|]. destruct Ok0 as (_ & _ & C & _). exact C. }
+    change (ux (off_upd ch i t) (set_tree u i new)) with {| us := set_tree (us (ux o u)) i new; off := off_upd ch i t |}.
+    eapply (U2_set_tree_off g policy WF _ _ _ _ (ux o u) i t new); [exact U|exact Et| | |reflexivity|reflexivity| |].
+    - unfold off_upd. destruct (c_op ch) as [[|]|]; [reflexivity| |reflexivity]. cbn [ux off]. apply upd_length.
+    - intros k0 Nk. unfold off_upd. destruct (c_op ch) as [[|]|]; [reflexivity| |reflexivity]. cbn [ux off]. apply nth_upd_other. exact Nk.
+    - cbn [ux us off]. unfold off_upd.
+      destruct (c_op ch) as [[|]|] eqn:Eo.
+      + destruct (No eq_refl).
+      + inversion Ea; subst new. eapply (ok2_unres g policy WF); [exact Ok0|exact Rf|exact Rf|exact Cls|].
+        cbn [t_free]. rewrite nth_upd_same by exact Lo. lia.
+      + inversion Ea; subst new. eapply (ok2_unres g policy WF); [exact Ok0|exact Rf|exact Rf|exact Cls|]. reflexivity.
+    - intros t0 c0 f0 Hin. exact (U2_inhand g policy WF _ _ _ _ _ _ U Hin).
+  Qed.
+
   (* ================= one access of a tree / slot primitive ================= *)
   Lemma P_access u c p f k cr0 ih0 :
     call_wf g u c -> twf g policy u c p (f :: k) -> (forall th, p <> PLow th) ->
-    UGt u (pk_gh g p (f :: k)) cr0 ih0 ->
+    UGt o u (pk_gh g p (f :: k)) cr0 ih0 ->
     static_eq u (fst (fst (prim_step g policy u p))) /\ low (fst (fst (prim_step g policy u p))) = low u /\
     match snd (prim_step g policy u p) with
     | OStay p' => fst (fst (prim_step g policy u p)) = u /\ twf g policy u c p' (f :: k) /\
-                  pk_gh g p' (f :: k) = pk_gh g p (f :: k) /\ (forall th, p' <> PLow th)
+                  pk_gh g p' (f :: k) = pk_gh g p (f :: k) /\ (forall th, p' <> PLow th) /\ off_next u p = o
     | OVal v => vfacts g policy u p v /\
-                UGt (fst (fst (prim_step g policy u p))) (gh_add (post_gh g p v f) (frame_gh g f)) cr0 ih0
+                UGt (off_next u p) (fst (fst (prim_step g policy u p))) (gh_add (post_gh g p v f) (frame_gh g f)) cr0 ih0
     | OCrash _ => False
     end.
   Proof.
@@ -473,12 +539,12 @@ Section Main.
     - (* PLd *)
       destruct (tree_at_some _ _ PO) as (t & Et). cbn [prim_step]. rewrite Et. cbn [fst snd].
       split; [apply static_refl|]. split; [reflexivity|]. split; [exists t; reflexivity|].
-      apply UGt_split. exact U.
+      cbn [off_next]. apply UGt_split. exact U.
     - (* PTL *)
       destruct PO as (L & Tf). destruct (tree_at_some _ _ L) as (t & Et). cbn [prim_step]. rewrite Et. cbn [fst snd].
       split; [apply static_refl|]. split; [reflexivity|].
       pose proof (P_tu _ _ _ _ _ _ U L Tf Et) as Q. destruct (tu_eval g policy u i f0 t) as [p'|v|z]; [| |exact Q].
-      + destruct Q as (new & -> & Ea). split; [reflexivity|]. split; [|split; [reflexivity|discriminate]].
+      + destruct Q as (new & -> & Ea). split; [reflexivity|]. split; [|split; [reflexivity|split; [discriminate|try reflexivity; eapply off_next_fail; eassumption]]].
         eapply twf_mono; [| | | | |exact T].
         * intros i' f' [H|(? & ? & H & _)]; inversion H; subst. right. eexists _, _. split; [reflexivity|exact Ea].
         * intros ? ? ? [H|(? & ? & H & _)]; discriminate H.
@@ -487,15 +553,15 @@ Section Main.
         * intros ? H. discriminate H.
       + destruct Q as (-> & Ea & Nu). split.
         * cbn [vfacts]. exists false, t, t. split; [reflexivity|]. split; [exact Ea|]. intros a cl E. destruct (Nu _ _ E).
-        * apply UGt_split. cbn [post_gh]. exact U.
+        * try rewrite (off_next_fail _ _ _ _ _ _ Et Eq); cbn [off_next]; apply UGt_split; cbn [post_gh]; exact U.
     - (* PTC *)
       destruct PO as (L & Tf & Ea0). destruct (tree_at_some _ _ L) as (t & Et). cbn [prim_step]. rewrite Et.
       destruct (tree_eqb t cur) eqn:Eq; cbn [fst snd].
-      + apply tree_eqb_true in Eq. subst t.
+      + pose proof Eq as Eq'. apply tree_eqb_true in Eq. subst t.
         split; [apply static_set_tree|]. split; [reflexivity|]. split.
         * cbn [vfacts]. exists true, cur, new. split; [reflexivity|]. split; [exact Ea0|]. reflexivity.
         * apply UGt_split. fold cr1 ih1. cbn [post_gh prim_gh] in *.
-          destruct f0 as [mn|cl n|n cl|a cl|? ? ?|n]; cbn [tf_apply tf_gh tfun_ok] in *.
+          destruct f0 as [mn|cl n|n cl|a cl|mc mf ch|n]; cbn [tf_apply tf_gh tfun_ok off_next] in *.
           -- destruct (tree_sync_steal cur mn) as [x|] eqn:Es; cbn [option_map] in Ea0; inversion Ea0; subst x.
              eapply P_sync; eassumption.
           -- destruct (tree_steal policy cur cl n) as [x|] eqn:Es; cbn [option_map] in Ea0; inversion Ea0; subst x.
@@ -504,12 +570,13 @@ Section Main.
              eapply P_ros; eassumption.
           -- destruct (P_unres _ _ _ _ _ _ U) as (t0 & t' & Et0 & Ea & U'). rewrite Et in Et0. inversion Et0; subst t0.
              rewrite Ea0 in Ea. inversion Ea; subst t'. exact U'.
-          -- destruct Tf.
+          -- rewrite Et, Eq'. destruct (tree_apply_change cur mc mf ch 0) as [x|] eqn:Es; cbn [option_map] in Ea0; inversion Ea0; subst x.
+             eapply P_change; eassumption.
           -- destruct (P_tput _ _ _ _ _ U L) as (t0 & t' & Et0 & Ea & U'). rewrite Et in Et0. inversion Et0; subst t0.
              rewrite Ea in Ea0. inversion Ea0; subst t'. exact U'.
       + split; [apply static_refl|]. split; [reflexivity|].
         pose proof (P_tu _ _ _ _ _ _ U L Tf Et) as Q. destruct (tu_eval g policy u i f0 t) as [p'|v|z]; [| |exact Q].
-        * destruct Q as (new' & -> & Ea). split; [reflexivity|]. split; [|split; [reflexivity|discriminate]].
+        * destruct Q as (new' & -> & Ea). split; [reflexivity|]. split; [|split; [reflexivity|split; [discriminate|try reflexivity; eapply off_next_fail; eassumption]]].
           eapply twf_mono; [| | | | |exact T].
           -- intros i' f' [H|(? & ? & H & _)]; inversion H; subst. right. eexists _, _. split; [reflexivity|exact Ea].
           -- intros ? ? ? [H|(? & ? & H & _)]; discriminate H.
@@ -518,12 +585,12 @@ Section Main.
           -- intros ? H. discriminate H.
         * destruct Q as (-> & Ea & Nu). split.
           -- cbn [vfacts]. exists false, t, t. split; [reflexivity|]. split; [exact Ea|]. intros a cl E. destruct (Nu _ _ E).
-          -- apply UGt_split. cbn [post_gh]. exact U.
+          -- try rewrite (off_next_fail _ _ _ _ _ _ Et Eq); cbn [off_next]; apply UGt_split; cbn [post_gh]; exact U.
     - (* PSL *)
       destruct PO as (So & Sf). destruct (slot_ok_some _ _ _ So) as (s & Hs). cbn [prim_step]. rewrite slot_at_eq, Hs. cbn [fst snd].
       split; [apply static_refl|]. split; [reflexivity|].
       pose proof (P_su _ _ _ _ _ _ _ U Hs) as Q. destruct (su_eval g cl idx f0 s) as [p'|v|z]; [| |exact Q].
-      + destruct Q as (new & -> & Ea). split; [reflexivity|]. split; [|split; [reflexivity|discriminate]].
+      + destruct Q as (new & -> & Ea). split; [reflexivity|]. split; [|split; [reflexivity|split; [discriminate|try reflexivity; eapply off_next_fail; eassumption]]].
         eapply twf_mono; [| | | | |exact T].
         * intros ? ? [H|(? & ? & H & _)]; discriminate H.
         * intros ? ? ? [H|(? & ? & H & _)]; inversion H; subst. right. eexists _, _. split; [reflexivity|exact Ea].
@@ -533,7 +600,7 @@ Section Main.
       + destruct Q as (-> & Ea). split.
         * cbn [vfacts]. exists false, s, s. split; [reflexivity|]. split; [|exact Ea].
           intros Pr. exact (P_slot_in _ _ _ _ _ _ _ U Hs Pr).
-        * apply UGt_split. cbn [post_gh]. exact U.
+        * try rewrite (off_next_fail _ _ _ _ _ _ Et Eq); cbn [off_next]; apply UGt_split; cbn [post_gh]; exact U.
     - (* PSC *)
       destruct PO as (So & Sf & Ea0). destruct (slot_ok_some _ _ _ So) as (s & Hs). cbn [prim_step]. rewrite slot_at_eq, Hs.
       destruct (slot_eqb s cur) eqn:Eq; cbn [fst snd].
@@ -541,7 +608,7 @@ Section Main.
         split; [apply static_set_slot|]. split; [apply set_slot_low|]. split.
         * cbn [vfacts]. exists true, cur, new. split; [reflexivity|]. split; [|exact Ea0].
           intros Pr. exact (P_slot_in _ _ _ _ _ _ _ U Hs Pr).
-        * apply UGt_split. fold cr1 ih1. cbn [post_gh prim_gh] in *.
+        * cbn [off_next]. apply UGt_split. fold cr1 ih1. cbn [post_gh prim_gh] in *.
           destruct f0 as [tree n|tree n|t n|row]; cbn [sf_apply sf_gh sfun_ok] in *.
           -- destruct (slot_get g cur tree n) as [x|] eqn:Es; cbn [option_map] in Ea0; inversion Ea0; subst x.
              eapply P_sget; eassumption.
@@ -552,7 +619,7 @@ Section Main.
              eapply P_sstart; eassumption.
       + split; [apply static_refl|]. split; [reflexivity|].
         pose proof (P_su _ _ _ _ _ _ _ U Hs) as Q. destruct (su_eval g cl idx f0 s) as [p'|v|z]; [| |exact Q].
-        * destruct Q as (new' & -> & Ea). split; [reflexivity|]. split; [|split; [reflexivity|discriminate]].
+        * destruct Q as (new' & -> & Ea). split; [reflexivity|]. split; [|split; [reflexivity|split; [discriminate|try reflexivity; eapply off_next_fail; eassumption]]].
           eapply twf_mono; [| | | | |exact T].
           -- intros ? ? [H|(? & ? & H & _)]; discriminate H.
           -- intros ? ? ? [H|(? & ? & H & _)]; inversion H; subst. right. eexists _, _. split; [reflexivity|exact Ea].
@@ -562,12 +629,12 @@ Section Main.
         * destruct Q as (-> & Ea). split.
           -- cbn [vfacts]. exists false, s, s. split; [reflexivity|]. split; [|exact Ea].
              intros Pr. exact (P_slot_in _ _ _ _ _ _ _ U Hs Pr).
-          -- apply UGt_split. cbn [post_gh]. exact U.
+          -- try rewrite (off_next_fail _ _ _ _ _ _ Et Eq); cbn [off_next]; apply UGt_split; cbn [post_gh]; exact U.
     - (* PSW *)
       destruct PO as (So & Hr). destruct (slot_ok_some _ _ _ So) as (s & Hs). cbn [prim_step]. rewrite slot_at_eq, Hs. cbn [fst snd].
       split; [apply static_set_slot|]. split; [apply set_slot_low|]. split.
       + cbn [vfacts]. exists s. split; [reflexivity|]. intros Pr. exact (P_slot_in _ _ _ _ _ _ _ U Hs Pr).
-      + apply UGt_split. fold cr1 ih1. cbn [post_gh prim_gh] in *. eapply P_swap; eassumption.
+      + cbn [off_next]. apply UGt_split. fold cr1 ih1. cbn [post_gh prim_gh] in *. eapply P_swap; eassumption.
   Qed.
 
   (* ================= the embedded M1 state ================= *)
@@ -631,12 +698,12 @@ Section Main.
     intros [A B]. split; [eapply call_wf_static; eassumption|eapply twf_static; eassumption].
   Qed.
 
-  Lemma UInv_upd s t x0 u' x' H' :
-    UInv s -> nth_error (m2_pool s) t = Some x0 -> static_eq (m2_up s) u' ->
+  Lemma UInv_upd o' s t x0 u' x' H' :
+    UInv o s -> nth_error (m2_pool s) t = Some x0 -> static_eq (m2_up s) u' ->
     Inv g (m1_of g (mkst u' (upd (m2_pool s) t x') H')) ->
-    UGt u' (uthr_gh g x') (crR (map (uthr_gh g) (m2_pool s)) t) (ihR (map (uthr_gh g) (m2_pool s)) t) ->
+    UGt o' u' (uthr_gh g x') (crR (map (uthr_gh g) (m2_pool s)) t) (ihR (map (uthr_gh g) (m2_pool s)) t) ->
     thr_wf u' x' ->
-    UInv (mkst u' (upd (m2_pool s) t x') H').
+    UInv o' (mkst u' (upd (m2_pool s) t x') H').
   Proof.
     intros (I & U & F) Ht SE I' U' W'. split; [exact I'|]. split.
     - cbn [mkst m2_up m2_pool]. rewrite map_upd. eapply UG_of_t; [|exact U'].
@@ -669,13 +736,6 @@ Section Main.
     rewrite E1, E2, E3, Ep, upd_upd, map_upd. reflexivity.
   Qed.
 
-  Lemma UGt_eq' u G G' cr0 ih0 :
-    (forall i, crsum (g_cr G) i = crsum (g_cr G') i) -> Permutation (g_ih G) (g_ih G') -> UGt u G cr0 ih0 -> UGt u G' cr0 ih0.
-  Proof.
-    intros A B U. unfold UGt in *.
-    eapply (U2_ext g policy WF); [|eapply (U2_perm g policy WF); [apply Permutation_app_tail; exact B|exact U]].
-    intros i. cbv beta. rewrite (A i). reflexivity.
-  Qed.
 
   Definition blocks (c : ucall) (G : ugh) : list (N * nat) :=
     match c with UGet _ r => map (fun fr => (fr, r_order r)) (g_bl G) | _ => [] end.
@@ -698,9 +758,9 @@ Section Main.
   Qed.
 
   (* the state right after the access of thread t: memory u', the thread's ghost G, thread t idle in M1 *)
-  Definition mid (st : m2state) (t : nat) (c : ucall) (u' : upper) (G : ugh) : Prop :=
+  Definition mid (o' : list N) (st : m2state) (t : nat) (c : ucall) (u' : upper) (G : ugh) : Prop :=
     static_eq (m2_up st) u' /\
-    UGt u' G (crR (map (uthr_gh g) (m2_pool st)) t) (ihR (map (uthr_gh g) (m2_pool st)) t) /\
+    UGt o' u' G (crR (map (uthr_gh g) (m2_pool st)) t) (ihR (map (uthr_gh g) (m2_pool st)) t) /\
     exists M, Inv g M /\ ms_frames M = frames (low u') /\ ms_ents M = ents (low u') /\ ms_bfs M = bfs (low u') /\
               (exists l, ms_pool M = upd (map low_thr (m2_pool st)) t (TIdle l)) /\
               Permutation (ms_held M)
@@ -711,10 +771,10 @@ Section Main.
     apply Permutation_app_head. rewrite <- app_assoc. apply Permutation_app_head. apply Permutation_app_comm.
   Qed.
 
-  Lemma finish_step st t x0 c u' G x :
-    UInv st -> nth_error (m2_pool st) t = Some x0 -> mid st t c u' G -> call_wf g u' c ->
+  Lemma finish_step o' st t x0 c u' G x :
+    UInv o st -> nth_error (m2_pool st) t = Some x0 -> mid o' st t c u' G -> call_wf g u' c ->
     good g policy u' c G x ->
-    UInv (apply_settled (with_up st u') t c x).
+    UInv o' (apply_settled (with_up st u') t c x).
   Proof.
     intros UI Ht (SE & UGm & M & IM & E1 & E2 & E3 & (l & Ep) & Pm) CW Gd.
     assert (Lt : (t < length (m2_pool st))%nat) by (apply nth_error_Some; congruence).
@@ -742,7 +802,7 @@ Section Main.
         * apply Permutation_sym. exact B.
     - (* the call returns *)
       destruct Gd as (NP & Ge). destruct Ge as (A & B & Eb).
-      assert (Ug : UGt u' gh_nil (crR (map (uthr_gh g) (m2_pool st)) t) (ihR (map (uthr_gh g) (m2_pool st)) t)).
+      assert (Ug : UGt o' u' gh_nil (crR (map (uthr_gh g) (m2_pool st)) t) (ihR (map (uthr_gh g) (m2_pool st)) t)).
       { eapply UGt_eq'; [| |exact UGm].
         - intros i. rewrite <- (A i). destruct c, r as [[? ?]|?|?]; reflexivity.
         - eapply perm_trans; [apply Permutation_sym; exact B|]. destruct c, r as [[? ?]|?|?]; apply Permutation_refl. }
@@ -752,7 +812,7 @@ Section Main.
         exists (TIdle l). split; [exact Ep|]. right. split; [eexists; reflexivity|exists None; reflexivity]. }
       unfold ufinish.
       assert (Dflt : forall H', H' = m2_held st -> blocks c G = [] ->
-                UInv (mkst u' (upd (m2_pool st) t (UIdle (Some r))) H')).
+                UInv o' (mkst u' (upd (m2_pool st) t (UIdle (Some r))) H')).
       { intros H' -> Bn. eapply UInv_upd; [exact UI|exact Ht|exact SE| |exact Ug|exact I].
         apply IdleM. rewrite (infl_upd _ _ _ Lt). cbn [inflight app]. rewrite Bn, app_nil_r in Pm. exact Pm. }
       destruct c as [fr rq|f rq| |m ch].
@@ -775,33 +835,33 @@ Section Main.
   Proof. intros N. destruct p; try reflexivity. destruct (N th eq_refl). Qed.
 
   Lemma UInv_thread st t c p k :
-    UInv st -> nth_error (m2_pool st) t = Some (URun c p k) ->
+    UInv o st -> nth_error (m2_pool st) t = Some (URun c p k) ->
     call_wf g (m2_up st) c /\ twf g policy (m2_up st) c p k /\
-    UGt (m2_up st) (pk_gh g p k) (crR (map (uthr_gh g) (m2_pool st)) t) (ihR (map (uthr_gh g) (m2_pool st)) t).
+    UGt o (m2_up st) (pk_gh g p k) (crR (map (uthr_gh g) (m2_pool st)) t) (ihR (map (uthr_gh g) (m2_pool st)) t).
   Proof.
     intros (I & U & F) Ht. pose proof (Forall_nth_error _ _ _ _ F Ht) as W. cbn [thr_wf] in W. destruct W as [CW T].
     split; [exact CW|]. split; [exact T|].
-    eapply (UG_to_t _ _ t (pk_gh g p k)); [|exact U]. rewrite nth_error_map, Ht. reflexivity.
+    eapply (UG_to_t _ _ _ t (pk_gh g p k)); [|exact U]. rewrite nth_error_map, Ht. reflexivity.
   Qed.
 
   (* a step of a thread whose primitive is a tree / slot access *)
   Lemma step_access st t c p k c0 :
-    UInv st -> nth_error (m2_pool st) t = Some (URun c p k) -> (forall th, p <> PLow th) ->
-    UInv (fst (ustep g policy st t c0)).
+    UInv o st -> nth_error (m2_pool st) t = Some (URun c p k) -> (forall th, p <> PLow th) ->
+    UInv (off_next (m2_up st) p) (fst (ustep g policy st t c0)).
   Proof.
     intros UI Ht NL. destruct (UInv_thread _ _ _ _ _ UI Ht) as (CW & T & Ut).
     destruct k as [|f k]; [destruct T|].
     assert (PS : pas_stack (m2_up st) c (lvl f) k) by (destruct T as (_ & PS & _); exact PS).
     assert (Lt : (t < length (m2_pool st))%nat) by (apply nth_error_Some; congruence).
     pose proof (P_access _ _ _ _ _ _ _ CW T NL Ut) as PA.
-    unfold ustep. rewrite Ht. destruct (prim_step g policy (m2_up st) p) as [[u' ev] o]. cbn [fst snd] in *.
+    unfold ustep. rewrite Ht. destruct (prim_step g policy (m2_up st) p) as [[u' ev] oc]. cbn [fst snd] in *.
     destruct PA as (SE & El & PA).
     assert (Eb0 : g_bl (pk_gh g p (f :: k)) = g_bl (frame_gh g f)).
     { rewrite (pk_gh_top g policy _ _ p f k _ PS). cbn [gh_add g_bl]. rewrite (prim_gh_bl _ _ NL). reflexivity. }
     destruct UI as (I & U & F).
-    destruct o as [p'|v|z]; [| |destruct PA].
+    destruct oc as [p'|v|z]; [| |destruct PA].
     - (* the primitive continues *)
-      destruct PA as (-> & T' & Eg & NL').
+      destruct PA as (-> & T' & Eg & NL' & Eo). rewrite Eo.
       change (set_uthr (with_up st (m2_up st)) t (URun c p' (f :: k)))
         with (mkst (m2_up st) (upd (m2_pool st) t (URun c p' (f :: k))) (m2_held st)).
       eapply UInv_upd; [split; [exact I|split; [exact U|exact F]]|exact Ht|exact SE| | |split; assumption].
@@ -858,9 +918,9 @@ Section Main.
            | H : lprim (PLow _) _ |- _ => destruct H as (?pc & H); inversion H; subst; clear H
            end.
 
-  Lemma low_call_tree row o fr : fr_tree g fr (row_tree g row) -> c_frame (low_get_call row o fr) / TF = row_tree g row.
+  Lemma low_call_tree row od fr : fr_tree g fr (row_tree g row) -> c_frame (low_get_call row od fr) / TF = row_tree g row.
   Proof. intros H. destruct fr as [f|]; cbn [low_get_call c_frame]; [apply H; reflexivity|reflexivity]. Qed.
-  Lemma low_call_order row o fr : c_order (low_get_call row o fr) = o.
+  Lemma low_call_order row od fr : c_order (low_get_call row od fr) = od.
   Proof. destruct fr; reflexivity. Qed.
 
   Lemma twf_low u c th f k :
@@ -896,10 +956,10 @@ Section Main.
   Qed.
 
   Lemma P_low_uic u A T h h' l' cr0 ih0 :
-    g_cr A = [] -> UGt u (gh_add A (gh_cr T h)) cr0 ih0 ->
+    g_cr A = [] -> UGt o u (gh_add A (gh_cr T h)) cr0 ih0 ->
     (forall t0, t0 < ntab g (frames l') -> tree_free g l' t0 <= TF) -> frames l' = frames (low u) ->
     (forall i, tree_free g l' i + delta i T h = tree_free g (low u) i + delta i T h') ->
-    UGt (with_low u l') (gh_add A (gh_cr T h')) cr0 ih0.
+    UGt o (with_low u l') (gh_add A (gh_cr T h')) cr0 ih0.
   Proof.
     intros EA U Le Ef Eq. unfold UGt in *. cbn [gh_add gh_cr g_cr g_ih] in *. rewrite EA in *. cbn [app] in *.
     rewrite <- ux_with_low. eapply (U2_with_low g policy WF); [exact U|exact Le|exact Ef|].
@@ -910,7 +970,7 @@ Section Main.
   Proof. destruct f; try reflexivity. cbn [low_A]. destruct reserved; reflexivity. Qed.
 
   Lemma UGt_merge u i tc a n cr0 ih0 :
-    UGt u (gh_add (gh_ih i tc a) (gh_cr i n)) cr0 ih0 -> UGt u (gh_ih i tc (a + n)) cr0 ih0.
+    UGt o u (gh_add (gh_ih i tc a) (gh_cr i n)) cr0 ih0 -> UGt o u (gh_ih i tc (a + n)) cr0 ih0.
   Proof.
     unfold UGt. cbn [gh_add gh_ih gh_cr g_cr g_ih app]. intros U.
     eapply (U2_ih_credit g policy WF); [exact U|]. intros j. cbv beta. rewrite crsum_one, crsum_nil. unfold delta.
@@ -921,8 +981,8 @@ Section Main.
   Proof. intros E. unfold blocks. rewrite E. destruct c; reflexivity. Qed.
 
   Lemma step_low st t c th k c0 :
-    UInv st -> nth_error (m2_pool st) t = Some (URun c (PLow th) k) ->
-    UInv (fst (ustep g policy st t c0)).
+    UInv o st -> nth_error (m2_pool st) t = Some (URun c (PLow th) k) ->
+    UInv o (fst (ustep g policy st t c0)).
   Proof.
     intros UI Ht. destruct (UInv_thread _ _ _ _ _ UI Ht) as (CW & T & Ut).
     destruct k as [|f k]; [destruct T|].
@@ -935,7 +995,7 @@ Section Main.
     { unfold m, m1_of. cbn. rewrite nth_error_map, Ht. reflexivity. }
     (* the ghost of the thread *)
     rewrite (pk_gh_top g policy _ _ _ f k _ PS), Fg, gh_add_nil_r in Ut. cbn [prim_gh] in Ut.
-    pose proof (UGt_eq _ _ _ _ _ (low_gh_split f (lhold g (TRun cl pc)) Lf) Ut) as Ut'.
+    pose proof (UGt_eq _ _ _ _ _ _ (low_gh_split f (lhold g (TRun cl pc)) Lf) Ut) as Ut'.
     (* the M1 step *)
     destruct (view_step g WF m t cl pc cl cl Hm) as (Efr & x' & Hx & Est).
     pose proof (step_inv g WF m t cl I) as IM.
@@ -961,7 +1021,7 @@ Section Main.
     assert (Eq : forall i, tree_free g l' i + delta i (low_T f) (lhold g (TRun cl pc))
                          = tree_free g (low (m2_up st)) i + delta i (low_T f) (fin_hold g cl x')).
     { intros i. specialize (SHd i). rewrite EM in SHd. rewrite ET. exact SHd. }
-    assert (Ug : UGt u' (gh_add (low_A f) (gh_cr (low_T f) (fin_hold g cl x')))
+    assert (Ug : UGt o u' (gh_add (low_A f) (gh_cr (low_T f) (fin_hold g cl x')))
                    (crR (map (uthr_gh g) (m2_pool st)) t) (ihR (map (uthr_gh g) (m2_pool st)) t)).
     { eapply P_low_uic; [apply low_A_cr|exact Ut'|exact TFl|exact Efr|exact Eq]. }
     assert (EMp : ms_pool M = upd (map low_thr (m2_pool st)) t x') by (rewrite EM; reflexivity).
@@ -977,7 +1037,7 @@ Section Main.
       { cbn [vfacts]. exists cl, pc. split; [reflexivity|]. intros Np. destruct (SR Np) as (A & _ & B). split; [exact A|].
         cbn. rewrite Efr. unfold m, m1_of in B. cbn in B. pose proof (pow2_pos (c_order cl)). lia. }
       assert (SH' : ntrees u' = ntab g (frames (low u'))) by (eapply UGt_ntrees; exact Ug).
-      eapply (finish_step st t _ c u' (gh_add (post_gh g (PLow (TRun cl pc)) (VL (Ok frm)) f) (frame_gh g f)));
+      eapply (finish_step o st t _ c u' (gh_add (post_gh g (PLow (TRun cl pc)) (VL (Ok frm)) f) (frame_gh g f)));
         [split; [exact I|split; [exact U|exact F]]|exact Ht| |eapply call_wf_static; eassumption|
          apply (K_settle g policy WF u' c SH'); [eapply call_wf_static; eassumption|eapply twf_static; eassumption|exact V]].
       split; [exact SE|]. split.
@@ -1011,7 +1071,7 @@ Section Main.
       assert (V : vfacts g policy u' (PLow (TRun cl pc)) (VL (Err EMemory))).
       { cbn [vfacts]. exists cl, pc. split; reflexivity. }
       assert (SH' : ntrees u' = ntab g (frames (low u'))) by (eapply UGt_ntrees; exact Ug).
-      eapply (finish_step st t _ c u' (gh_add (post_gh g (PLow (TRun cl pc)) (VL (Err EMemory)) f) (frame_gh g f)));
+      eapply (finish_step o st t _ c u' (gh_add (post_gh g (PLow (TRun cl pc)) (VL (Err EMemory)) f) (frame_gh g f)));
         [split; [exact I|split; [exact U|exact F]]|exact Ht| |eapply call_wf_static; eassumption|
          apply (K_settle g policy WF u' c SH'); [eapply call_wf_static; eassumption|eapply twf_static; eassumption|exact V]].
       split; [exact SE|]. split.
@@ -1074,18 +1134,18 @@ Section Main.
   Definition call_valid2 (u : upper) (c : ucall) : Prop :=
     call_valid u c /\ match c with UPut f r => check g u f r = Ok tt | _ => True end.
 
-  Lemma UInv_idle_gh st t l : nth_error (m2_pool st) t = Some (UIdle l) -> UInv st ->
-    UGt (m2_up st) gh_nil (crR (map (uthr_gh g) (m2_pool st)) t) (ihR (map (uthr_gh g) (m2_pool st)) t).
+  Lemma UInv_idle_gh st t l : nth_error (m2_pool st) t = Some (UIdle l) -> UInv o st ->
+    UGt o (m2_up st) gh_nil (crR (map (uthr_gh g) (m2_pool st)) t) (ihR (map (uthr_gh g) (m2_pool st)) t).
   Proof.
-    intros Ht (_ & U & _). eapply (UG_to_t _ _ t gh_nil); [|exact U]. rewrite nth_error_map, Ht. reflexivity.
+    intros Ht (_ & U & _). eapply (UG_to_t _ _ _ t gh_nil); [|exact U]. rewrite nth_error_map, Ht. reflexivity.
   Qed.
 
-  Lemma UInv_SH st : UInv st -> ntrees (m2_up st) = ntab g (frames (low (m2_up st))).
+  Lemma UInv_SH st : UInv o st -> ntrees (m2_up st) = ntab g (frames (low (m2_up st))).
   Proof. intros (_ & U & _). exact (U2_ntrees g policy WF _ _ _ U). Qed.
 
   Lemma step_start st t l c0 :
-    UInv st -> nth_error (m2_pool st) t = Some (UIdle l) -> call_valid2 (m2_up st) c0 ->
-    UInv (fst (ustep g policy st t c0)).
+    UInv o st -> nth_error (m2_pool st) t = Some (UIdle l) -> call_valid2 (m2_up st) c0 ->
+    UInv o (fst (ustep g policy st t c0)).
   Proof.
     intros UI Ht (V & Vp). pose proof (UInv_SH _ UI) as SH. pose proof (UInv_idle_gh _ _ _ Ht UI) as Ug.
     assert (Lt : (t < length (m2_pool st))%nat) by (apply nth_error_Some; congruence).
@@ -1096,7 +1156,7 @@ Section Main.
     assert (Hfl : flat_map (inflight g) (m2_pool st) = inflB (m2_pool st) t ++ inflA (m2_pool st) t).
     { rewrite (infl_at _ _ _ Ht). reflexivity. }
     destruct UI as (I & U & F).
-    destruct c0 as [fr r|f r| |m ch]; [| | |destruct V].
+    destruct c0 as [fr r|f r| |m ch].
     - (* get *)
       cbn [fst]. destruct (settle g policy SETTLE (m2_up st) (enter_call g (m2_up st) (UGet fr r))) as [p k|r'|z];
         cbn [start_good apply_settled] in *; [| |destruct SG].
@@ -1164,18 +1224,69 @@ Section Main.
         eapply (m1_of_upd (m1_of g st)); [exact I|reflexivity|reflexivity|reflexivity|exact Lt| |].
         * exists (TIdle None). split; [cbn; symmetry; apply upd_same; exact Hm|left; reflexivity].
         * cbn. rewrite (infl_upd _ _ _ Lt), Hfl. apply Permutation_refl.
+    - (* change_tree *)
+      cbn [fst]. destruct (settle g policy SETTLE (m2_up st) (enter_call g (m2_up st) (UChange m ch))) as [p k|r'|z];
+        cbn [start_good apply_settled] in *; [| |destruct SG].
+      + destruct SG as (CW & T & Ge & En).
+        change (set_uthr st t (URun (UChange m ch) p k)) with (mkst (m2_up st) (upd (m2_pool st) t (URun (UChange m ch) p k)) (m2_held st)).
+        eapply UInv_upd; [split; [exact I|split; [exact U|exact F]]|exact Ht|apply static_refl| | |split; assumption].
+        * destruct En as [En|(f0 & r0 & E0 & _)]; [|discriminate E0].
+          assert (Pm : Permutation (ms_held (m1_of g st)) (m2_held st ++ flat_map (inflight g) (upd (m2_pool st) t (URun (UChange m ch) p k)))).
+          { cbn. rewrite (infl_upd _ _ _ Lt), Hfl. cbn [inflight app]. apply Permutation_refl. }
+          destruct p as [i|i f0|i f0 cur j a0|i f0 cur new|cl idx f0|cl idx f0 cur new|cl idx new|th'];
+            try (eapply (m1_of_upd (m1_of g st)); [exact I|reflexivity|reflexivity|reflexivity|exact Lt| |exact Pm];
+                 exists (TIdle None); split; [cbn; symmetry; apply upd_same; exact Hm|left; reflexivity]).
+          destruct (En th' eq_refl) as (cl & -> & Cw & Np).
+          eapply (m1_of_upd (goto (m1_of g st) t cl (entry_pc g cl))); [|reflexivity|reflexivity|reflexivity|exact Lt| |exact Pm].
+          -- eapply m1_enter_get; [exact I|exact Hm|exact Cw|exact Np].
+          -- exists (TRun cl (entry_pc g cl)). split; [reflexivity|left; reflexivity].
+        * cbn [uthr_gh]. eapply UGt_eq; [apply gh_eq_sym; exact Ge|exact Ug].
+      + unfold ufinish.
+        change (set_uthr st t (UIdle (Some r'))) with (mkst (m2_up st) (upd (m2_pool st) t (UIdle (Some r'))) (m2_held st)).
+        eapply UInv_upd; [split; [exact I|split; [exact U|exact F]]|exact Ht|apply static_refl| |exact Ug|exact Logic.I].
+        eapply (m1_of_upd (m1_of g st)); [exact I|reflexivity|reflexivity|reflexivity|exact Lt| |].
+        * exists (TIdle None). split; [cbn; symmetry; apply upd_same; exact Hm|left; reflexivity].
+        * cbn. rewrite (infl_upd _ _ _ Lt), Hfl. apply Permutation_refl.
   Qed.
 
   (* ================= every step ================= *)
+  (* the ghost after a step of thread t *)
+  Definition goff (st : m2state) (t : nat) : list N :=
+    match nth_error (m2_pool st) t with
+    | Some (URun _ p _) => off_next (m2_up st) p
+    | _ => o
+    end.
+
   Theorem ustep_inv st t c0 :
-    UInv st -> call_valid2 (m2_up st) c0 -> UInv (fst (ustep g policy st t c0)).
+    UInv o st -> call_valid2 (m2_up st) c0 -> UInv (goff st t) (fst (ustep g policy st t c0)).
   Proof.
-    intros UI V. destruct (nth_error (m2_pool st) t) as [[l|c p k|z c]|] eqn:Ht.
+    intros UI V. unfold goff. destruct (nth_error (m2_pool st) t) as [[l|c p k|z c]|] eqn:Ht.
     - eapply step_start; eassumption.
-    - destruct p; try (eapply step_access; [exact UI|exact Ht|discriminate]). eapply step_low; eassumption.
+    - destruct p; try (eapply step_access; [exact UI|exact Ht|discriminate]). cbn [off_next]. eapply step_low; eassumption.
     - unfold ustep. rewrite Ht. exact UI.
     - unfold ustep. rewrite Ht. exact UI.
   Qed.
+
+  (* the ghost only changes inside a change_tree call *)
+  Lemma goff_change st t :
+    UInv o st -> goff st t <> o -> exists m ch p k, nth_error (m2_pool st) t = Some (URun (UChange m ch) p k).
+  Proof.
+    intros (_ & _ & F) Hne. unfold goff in Hne. destruct (nth_error (m2_pool st) t) as [[l|c p k|z c]|] eqn:Ht; try (destruct (Hne eq_refl)).
+    pose proof (Forall_nth_error _ _ _ _ F Ht) as W. cbn [thr_wf] in W. destruct W as [CW T].
+    destruct p as [i|i f0|i f0 cur j a|i f0 cur new|cl idx f0|cl idx f0 cur new|cl idx new|th]; try (destruct (Hne eq_refl)).
+    destruct f0 as [| | | |mc mf ch|]; try (destruct (Hne eq_refl)).
+    destruct k as [|f k]; [destruct T|]. destruct T as (T & _).
+    destruct f; cbn [top_wf] in T; try (destruct T; fail); unfold ros_ok in *; flat; subst;
+      repeat match goal with
+             | H : tprim _ _ _ (PTC _ _ _ _) _ _ |- _ => destruct H as [H|(? & ? & H & _)]; [discriminate H|inversion H; subst; clear H]
+             | H : sprim _ (PTC _ _ _ _) _ _ _ |- _ => destruct H as [H|(? & ? & H & _)]; discriminate H
+             | H : lprim (PTC _ _ _ _) _ |- _ => destruct H as (? & H); discriminate H
+             | H : PTC _ _ _ _ = _ |- _ => discriminate H
+             end.
+    eexists _, _, _, _. reflexivity.
+  Qed.
+  End Offs.
+
 
   (* the static parts of the shared state never change *)
   Lemma static_trans u1 u2 u3 : static_eq u1 u2 -> static_eq u2 u3 -> static_eq u1 u3.
@@ -1212,8 +1323,8 @@ Section Main.
       destruct c0 as [fr r|f r| |m ch]; cbn [fst]; try (apply S; reflexivity).
       destruct (client_take _ _ _); cbn [fst]; [apply S; reflexivity|apply static_refl].
     - pose proof (prim_step_static (m2_up st) p) as PS.
-      destruct (prim_step g policy (m2_up st) p) as [[u' ev] o]. cbn [fst] in *.
-      destruct o as [p'|v|z]; try exact PS.
+      destruct (prim_step g policy (m2_up st) p) as [[u' ev] oc]. cbn [fst] in *.
+      destruct oc as [p'|v|z]; try exact PS.
       destruct (settle g policy SETTLE u' (ARet v k)) as [p' k'|r|z]; cbn [apply_settled]; try exact PS.
       unfold ufinish. destruct c as [fr rq| | |]; try exact PS. destruct r as [[a b]|e|z]; exact PS.
   Qed.
@@ -1223,8 +1334,10 @@ Section Main.
   Lemma call_valid2_static u u' c : static_eq u u' -> call_valid2 u c -> call_valid2 u' c.
   Proof.
     intros SE (V & P). split.
-    - destruct c as [fr r|f r| |]; cbn [call_valid] in *; try exact V; intros l len El Ec;
-        apply (V l len El); rewrite <- (proj1 (proj2 SE)); exact Ec.
+    - destruct c as [fr r|f r| |m ch]; cbn [call_valid] in *; try exact V.
+      + intros l len El Ec. apply (V l len El). rewrite <- (proj1 (proj2 SE)). exact Ec.
+      + intros l len El Ec. apply (V l len El). rewrite <- (proj1 (proj2 SE)). exact Ec.
+      + destruct V as [V1 V2]. split; [exact V1|]. intros c0 E0. rewrite (proj1 (proj2 SE)). exact (V2 c0 E0).
     - destruct c; try exact P. rewrite (check_static _ _ _ _ SE). exact P.
   Qed.
 
@@ -1232,12 +1345,65 @@ Section Main.
   Definition sched_valid (u : upper) (sch : list (nat * ucall)) : Prop :=
     Forall (fun tc => call_valid2 u (snd tc)) sch.
 
-  Theorem urun_inv sch : forall st, UInv st -> sched_valid (m2_up st) sch -> UInv (urun g policy sch st).
+  (* the run with its ghost *)
+  Definition gstep (x : m2state * list N) (tc : nat * ucall) : m2state * list N :=
+    (fst (ustep g policy (fst x) (fst tc) (snd tc)), goff (snd x) (fst x) (fst tc)).
+  Definition grun (sch : list (nat * ucall)) (x : m2state * list N) : m2state * list N := fold_left gstep sch x.
+
+  Lemma grun_fst sch : forall x, fst (grun sch x) = urun g policy sch (fst x).
   Proof.
-    induction sch as [|[t c] sch IH]; intros st UI SV; [exact UI|]. inversion SV as [|? ? V1 V2]; subst. cbn [snd] in V1.
-    cbn [urun fold_left fst snd]. apply IH.
+    induction sch as [|tc sch IH]; intros x; [reflexivity|].
+    change (grun (tc :: sch) x) with (grun sch (gstep x tc)). rewrite IH. reflexivity.
+  Qed.
+
+  Theorem grun_inv sch : forall st o, UInv o st -> sched_valid (m2_up st) sch ->
+    UInv (snd (grun sch (st, o))) (fst (grun sch (st, o))).
+  Proof.
+    induction sch as [|[t c] sch IH]; intros st o UI SV; [exact UI|]. inversion SV as [|? ? V1 V2]; subst. cbn [snd] in V1.
+    change (grun ((t, c) :: sch) (st, o)) with (grun sch (fst (ustep g policy st t c), goff o st t)). apply IH.
     - apply ustep_inv; assumption.
     - eapply Forall_impl; [|exact V2]. intros tc. apply call_valid2_static. apply ustep_static.
+  Qed.
+
+  (* ----- without change_tree the ghost never changes ----- *)
+  Definition no_change (c : ucall) : Prop := match c with UChange _ _ => False | _ => True end.
+  Definition thr_nochange (x : uthr) : Prop := match x with URun c _ _ => no_change c | _ => True end.
+  Lemma ustep_nochange st t c0 :
+    no_change c0 -> Forall thr_nochange (m2_pool st) -> Forall thr_nochange (m2_pool (fst (ustep g policy st t c0))).
+  Proof.
+    intros N F. unfold ustep. destruct (nth_error (m2_pool st) t) as [[l|c p k|z c]|] eqn:Ht; try exact F.
+    - assert (S : forall s1, m2_pool s1 = m2_pool st -> forall x, Forall thr_nochange (m2_pool (apply_settled s1 t c0 x))).
+      { intros s1 E x. destruct x as [p k|r|z]; cbn [apply_settled].
+        - cbn. rewrite E. apply Forall_upd; [exact F|exact N].
+        - unfold ufinish. assert (Q : Forall thr_nochange (upd (m2_pool s1) t (UIdle (Some r)))) by (rewrite E; apply Forall_upd; [exact F|exact I]).
+          destruct c0 as [fr rq| | |]; try exact Q. destruct r as [[a b]|e|z]; exact Q.
+        - cbn. rewrite E. apply Forall_upd; [exact F|exact I]. }
+      destruct c0 as [fr r|f r| |m ch]; cbn [fst]; try (apply S; reflexivity).
+      destruct (client_take _ _ _); cbn [fst]; [apply S; reflexivity|exact F].
+    - pose proof (Forall_nth_error _ _ _ _ F Ht) as Nc. cbn [thr_nochange] in Nc.
+      destruct (prim_step g policy (m2_up st) p) as [[u' ev] oc]. cbn [fst].
+      destruct oc as [p'|v|z]; try (cbn; apply Forall_upd; [exact F|try exact Nc; exact I]).
+      destruct (settle g policy SETTLE u' (ARet v k)) as [p' k'|r|z]; cbn [apply_settled]; try (cbn; apply Forall_upd; [exact F|try exact Nc; exact I]).
+      unfold ufinish. assert (Q : Forall thr_nochange (upd (m2_pool st) t (UIdle (Some r)))) by (apply Forall_upd; [exact F|exact I]).
+      destruct c as [fr rq| | |]; try exact Q. destruct r as [[a b]|e|z]; exact Q.
+  Qed.
+
+  Lemma grun_nochange sch : forall st o, UInv o st -> sched_valid (m2_up st) sch ->
+    Forall (fun tc => no_change (snd tc)) sch -> Forall thr_nochange (m2_pool st) ->
+    snd (grun sch (st, o)) = o.
+  Proof.
+    induction sch as [|[t c] sch IH]; intros st o UI SV NC F; [reflexivity|].
+    inversion SV as [|? ? V1 V2]; subst. inversion NC as [|? ? N1 N2]; subst. cbn [snd] in V1, N1.
+    change (grun ((t, c) :: sch) (st, o)) with (grun sch (fst (ustep g policy st t c), goff o st t)).
+    assert (Eo : goff o st t = o).
+    { destruct (list_eq_dec N.eq_dec (goff o st t) o) as [E|Ne]; [exact E|exfalso].
+      destruct (goff_change o st t UI Ne) as (m & ch & p & k & Ht).
+      pose proof (Forall_nth_error _ _ _ _ F Ht) as Q. exact Q. }
+    rewrite Eo. apply IH.
+    - rewrite <- Eo. apply ustep_inv; assumption.
+    - eapply Forall_impl; [|exact V2]. intros tc. apply call_valid2_static. apply ustep_static.
+    - exact N2.
+    - apply ustep_nochange; assumption.
   Qed.
 
 End Main.
